@@ -482,8 +482,43 @@ def same_limits_again_case(ctx, rng):
                        "rebuilt": rebuilt[:300]}, case)
 
 
+def removed_through_fmt_case(ctx, rng):
+    """a printed table with record limits and a break-by column loses that column - through the table or through the
+    format object it hands out: other records are visible now, the widths are made anew, and the reported format
+    gives the same table"""
+    ctx.evaluated()
+    n = rng.randint(4, 7)
+    recs = [(k, "b%d" % (k % 2), 1, "d" * (1 + (k * 3) % 7)) for k in range(n)]
+    limits = rng.choice([(1, 1), (2, 1), (1, 2)])
+    fmt = rng.choice(["b!,d", "b!,a,d", "d,b!"]) + ";%d:%d" % limits
+    via_fmt = rng.random() < 0.6
+    case = {"removed_through_fmt": True, "fmt": fmt, "via_fmt": via_fmt}
+    try:
+        t = PPTable(recs, fields=T.FIELDS, fmt=fmt, fields_types=T.mk_field_types(), footer="end")
+        T.render(t)
+        if via_fmt:
+            t.fmt.remove_columns(['b'])
+        else:
+            t.remove_columns(['b'])
+        reported = str(t.fmt)
+        shown = T.render(t)
+        rebuilt = T.render(PPTable(recs, fields=T.FIELDS, fmt=str(t.fmt), fields_types=T.mk_field_types(), footer="end"))
+        before_print = T.render(PPTable(recs, fields=T.FIELDS, fmt=reported, fields_types=T.mk_field_types(), footer="end"))
+    except Exception as err:
+        ctx.violation("table-operation-raises", {"stage": "columns-removed", "type": type(err).__name__,
+                                                 "msg": str(err)[:200]}, case)
+        return
+    ctx.count("break_by_columns_removed_from_printed_tables_with_limits")
+    if rebuilt != shown or before_print != shown:
+        ctx.violation("constructor-with-reported-format-renders-differently",
+                      {"stage": "columns-removed", "when": "after-print" if before_print == shown else "before-print",
+                       "fmt": reported, "table": shown[:300], "rebuilt": (rebuilt if rebuilt != shown else before_print)[:300]}, case)
+
+
 def run_shard(ctx):
     for i in range(ctx.cases):
+        if i % 5 == 3:
+            removed_through_fmt_case(ctx, ctx.rng(i, "removed"))
         if i % 5 == 0:
             same_limits_again_case(ctx, ctx.rng(i, "same-limits"))
         if i % 5 == 1:
@@ -502,6 +537,11 @@ def run_shard(ctx):
 
 
 def replay(ctx, case):
+    if case.get("removed_through_fmt"):
+        import random
+        for k in range(200):
+            removed_through_fmt_case(ctx, random.Random(k))
+        return
     if case.get("same_limits_again"):
         import random
         for k in range(200):
